@@ -675,9 +675,18 @@ def drop_header_pseudo_axiom(chk):
 
 
 def run(chk):
+    import os, time
     rng = random.Random(chk.seed)
+    laps = {}
+    tm = {"t": time.time(), "c": sum(os.times()[:4])}
+
+    def lap(name):     # CPU seconds (this process + waited-for children) and wall seconds per phase
+        now_t, now_c = time.time(), sum(os.times()[:4])
+        laps[name] = {"wall_s": round(now_t - tm["t"], 2), "cpu_s": round(now_c - tm["c"], 2)}
+        tm["t"], tm["c"] = now_t, now_c
     chk.build_proofs()
     drop_header_pseudo_axiom(chk)
+    lap("build_proofs")
     C.reset_backends()
     tier = chk.tier
     cases, meta = [], []
@@ -708,7 +717,10 @@ def run(chk):
         if cid % 211 == 0:
             chk.sample({"entry_point": entry_point(sname, call), "stream": call.get("stream"), "outcome": out[0],
                         "output": str(out[1])[:120], "input_shapes": [list(np.asarray(a).shape) for a in call.get("As", [call.get("yt", call.get("M"))])]}, maxn=6)
+    lap("implementation_and_predicates")
     failing, n_eval, broken = C.run_case_shards("C20", HEADER, "case", cases, shard=60 if tier == "quick" else 120)
+    lap("coq_case_shards")
+    chk.cov["phase_times"] = laps
     chk.checker_cmds.append("coqc (vm_compute) on generated build/cases/C20/*.v: Corr.C20.failing")
     chk.cov["traces_validated_against_impl"] = n_eval
     chk.cov["skipped_ill_conditioned"] = skipped
